@@ -15,7 +15,14 @@ PYTHONHASHSEED (twice in each, with fresh environments); the generated sources m
 byte-identical across all of them, and the projection of the generated source on the modelled
 instructions must be the canonical list TLC printed.  A corpus of larger templates (random
 concatenations of the programs inside loops / blocks / macros, and the templates of the repository's
-test-suite) is checked for byte-identity only.
+test-suite) is checked for byte-identity only.  The two compilations of a template in a process have a compilation
+by an environment of the other mode (async) in between, and the async code is compared the same way.
+
+Spec: spec/CompileSession.tla - one process compiling a sequence of templates with sync / async environments; what
+could outlive a compilation (the module-level list runtime.exported, the generator's identifier counter) is explicit
+state with a switch each.  TLC proves C30_HistoryIndependent for the code's switches, refutes it with a switch off,
+and prints every session with the expected import line / t_N numbers of every step; each session is replayed in a
+process of its own (forked from a hash-seed worker that has compiled nothing yet).
 """
 from __future__ import annotations
 
@@ -52,20 +59,66 @@ TEST_POOL = ["boolean", "callable", "defined", "even", "float", "integer", "iter
              "number", "odd", "sequence", "string", "undefined", "upper"]
 
 WORKER = r"""
-import json, sys
+import json, os, sys
 job = json.load(open(sys.argv[1]))
-out = {"orders": [list(set(s)) for s in job.get("subsets", [])], "codes": [], "again": []}
+out = {"orders": [list(set(s)) for s in job.get("subsets", [])], "codes": [], "again": [], "acodes": [], "aagain": []}
+if job.get("runtime_lists"):
+    import jinja2.runtime as rt
+    out["exported"], out["async_exported"] = list(rt.exported), list(rt.async_exported)
+
+
+def compile_one(env, src):
+    try:
+        return env.compile(src, raw=True)
+    except Exception as e:
+        return "EXC " + type(e).__name__ + ": " + str(e)
+
+
+if job.get("sessions"):
+    # every session in a process of its own, forked here: jinja2 is imported and the lexer of the default
+    # delimiters is built (its regular expressions cost more than all the compilations of a session); nothing has
+    # been parsed or compiled yet
+    from jinja2 import Environment
+    Environment().lexer
+    table, out["sessions"] = {}, []
+    for sess in job["sessions"]:
+        r, w = os.pipe()
+        pid = os.fork()
+        if pid == 0:
+            status = 1
+            try:
+                os.close(r)
+                envs, res = {}, []
+                for ui, mode in sess:
+                    if mode not in envs:
+                        envs[mode] = Environment(enable_async=(mode == "async"))
+                    res.append(compile_one(envs[mode], job["units"][ui]))
+                with os.fdopen(w, "w") as f:
+                    json.dump(res, f)
+                status = 0
+            finally:
+                os._exit(status)
+        os.close(w)
+        with os.fdopen(r) as f:
+            data = f.read()
+        if os.waitpid(pid, 0)[1] != 0:
+            raise SystemExit("session child failed")
+        out["sessions"].append([table.setdefault(c, len(table)) for c in json.loads(data)])
+    out["session_table"] = sorted(table, key=table.get)
 if job.get("sources"):
     from jinja2 import Environment
     for src in job["sources"]:
         ext = ["jinja2.ext.i18n"] if "{% trans" in src else []
-        try:
-            a = Environment(extensions=ext).compile(src, raw=True)
-            b = Environment(extensions=ext).compile(src, raw=True)
-        except Exception as e:
-            a = b = "EXC " + type(e).__name__ + ": " + str(e)
+        # sync, async, sync, async: between two compilations of a template by environments of one configuration
+        # the process compiles with an environment of the other configuration
+        a = compile_one(Environment(extensions=ext), src)
+        x = compile_one(Environment(extensions=ext, enable_async=True), src)
+        b = compile_one(Environment(extensions=ext), src)
+        y = compile_one(Environment(extensions=ext, enable_async=True), src)
         out["codes"].append(a)
         out["again"].append(a == b)
+        out["acodes"].append(x)
+        out["aagain"].append(x == y)
 json.dump(out, open(sys.argv[2], "w"))
 """
 
@@ -111,7 +164,10 @@ def choose_names(ck, seeds, rnd):
         groups.append(subsets(c["vars"] + ["zm"]) + subsets(c["filters"]) + subsets(c["tests"])
                       + [["caller", "kwargs", "varargs"]])
     flat = [s for g in groups for s in g]
-    res = run_seeds(seeds, {"subsets": flat}, "names")
+    res = run_seeds(seeds, {"subsets": flat, "runtime_lists": True}, "names")
+    lists = {k: res[seeds[0]][k] for k in ("exported", "async_exported")}
+    if any({k: res[s][k] for k in lists} != lists for s in seeds):
+        raise core.MachineryError("jinja2.runtime.exported / async_exported differ between fresh processes")
     pos = 0
     for c, g in zip(cands, groups):
         ok = True
@@ -123,7 +179,7 @@ def choose_names(ck, seeds, rnd):
         if ok:
             ck.extra["names"] = c
             ck.extra["name_subsets_with_seed_dependent_order"] = len(g)
-            return c
+            return c, lists
     raise core.MachineryError("no name tuple found whose set orders all vary between the seeds")
 
 
@@ -304,6 +360,135 @@ def canon_events(canon):
 
 
 # ---------------------------------------------------------------------------
+# CompileSession.tla: sequences of compilations (sync / async environments) in one process
+# ---------------------------------------------------------------------------
+# a unit = statements of the alphabet above; deps = the temporaries t_N its compilation allocates (its filters and
+# tests).  The third unit is used in the thorough tier only.
+SESSION_UNITS = [{"prog": [{"k": "set", "a": [[2, 1]]}, {"k": "out", "a": [[2, 1], []]}], "deps": 2},
+                 {"prog": [{"k": "out", "a": [[3, 1, 2], [2, 1]]}, {"k": "macro", "a": [[2, 1, 3]]}], "deps": 5},
+                 {"prog": [{"k": "if", "a": [[[2], [3]]]}, {"k": "include", "a": []}], "deps": 0}]
+SESSION_SWITCHES = [{"copy": True, "reset": True}, {"copy": False, "reset": True}, {"copy": True, "reset": False}]
+IMPORT_LINE = "from jinja2.runtime import "
+
+
+def name_ranks(lists):
+    """the names of runtime.exported / async_exported (read in a process that has not compiled anything) as
+    numbers: rank in string order"""
+    allnames = sorted(set(lists["exported"]) | set(lists["async_exported"]))
+    rank = {n: i + 1 for i, n in enumerate(allnames)}
+    return rank, [rank[n] for n in lists["exported"]], [rank[n] for n in lists["async_exported"]]
+
+
+def run_session_tlc(name, lists, maxlen, nunits):
+    _rank, exp, aexp = name_ranks(lists)
+    d = core.workdir(PID, name + "_mc")
+    mc = d / "MC_CompileSession.tla"
+    mc.write_text(f"""---- MODULE MC_CompileSession ----
+EXTENDS CompileSession
+mc_Units == {{{", ".join(f"[id |-> {i + 1}, deps |-> {u['deps']}]" for i, u in enumerate(SESSION_UNITS[:nunits]))}}}
+mc_Modes == {{"sync", "async"}}
+mc_Exported == {core.tla_str(exp)}
+mc_Async == {core.tla_str(aexp)}
+mc_Switches == {{{", ".join(core.tla_str(x) for x in SESSION_SWITCHES)}}}
+====
+""")
+    cfg = f"""CONSTANTS
+  Units <- mc_Units
+  Modes <- mc_Modes
+  ExportedList <- mc_Exported
+  AsyncList <- mc_Async
+  Switches <- mc_Switches
+  MaxLen = {maxlen}
+SPECIFICATION Spec
+INVARIANT C30_HistoryIndependent
+INVARIANT C30_Repeatable
+INVARIANT C30_SharedUntouched
+"""
+    return core.run_tlc(PID, "MC_CompileSession", cfg, name=name, extra_modules=[mc], workers=2, timeout=1200)
+
+
+def session_records(r):
+    """-> (sessions with the expected record of every compilation, leaking sessions per switched-off switch)"""
+    sessions, leaks = {}, {"copy": 0, "reset": 0}
+    for x in set(r.printed()):
+        b = json.loads(x)
+        if "leak" in b:
+            for k in leaks:
+                if not b["leak"][k]:
+                    leaks[k] += 1
+        else:
+            sessions[json.dumps(b["session"])] = b
+    return [sessions[k] for k in sorted(sessions)], leaks
+
+
+def project_head(code, rank):
+    """the import line (as ranks) and the numbers of the t_N dependency lines of a generated module"""
+    imp = None
+    for line in code.splitlines():
+        if line.startswith(IMPORT_LINE):
+            imp = [rank.get(n.strip(), -1) for n in line[len(IMPORT_LINE):].split(",")]
+            break
+    return {"imp": imp, "deps": [int(n) for n in re.findall(r"^\s+t_(\d+) = environment\.(?:filters|tests)\[", code, re.M)]}
+
+
+def session_job(sessions):
+    return [[[u - 1, m] for u, m in b["session"]] for b in sessions]
+
+
+def run_compile_jobs(seeds, sessions, unit_sources, sources, tag):
+    """one worker process per hash seed: it replays its share of the sessions (each in a forked child of its own;
+    session i goes to worker i mod #seeds) and then compiles all the sources"""
+    jobs = {s: {"units": unit_sources, "sessions": session_job(sessions[k::len(seeds)]), "sources": sources}
+            for k, s in enumerate(seeds)}
+    with ThreadPoolExecutor(len(seeds)) as ex:
+        return dict(zip(seeds, ex.map(lambda s: run_worker(s, jobs[s], tag), seeds)))
+
+
+def check_sessions(ck, unit_sources, sessions, lists, res, seeds):
+    """every session TLC enumerated, as replayed by a forked child of one of the hash-seed workers"""
+    rank, _e, _a = name_ranks(lists)
+    ref = {}
+    n = 0
+    for si, b in enumerate(sessions):
+        reported = False
+        for s in [seeds[si % len(seeds)]]:
+            ids = res[s]["sessions"][si // len(seeds)]
+            table = res[s]["session_table"]
+            for k, ((u, m), want) in enumerate(zip(b["session"], b["expect"])):
+                code = table[ids[k]]
+                if code.startswith("EXC "):
+                    raise core.MachineryError(f"session unit does not compile: {unit_sources[u - 1]!r} ({m}): {code}")
+                n += 1
+                got = project_head(code, rank)
+                case = {"kind": "session", "units": unit_sources, "session": b["session"], "step": k, "seed": s,
+                        "expected": want, "actual": got}
+                before = [f"{unit_sources[x - 1]!r} ({y})" for x, y in b["session"][:k]]
+                if got != want and not reported:
+                    reported = True
+                    instr = "import" if got["imp"] != want["imp"] else "deps"
+                    inv = {v: k2 for k2, v in rank.items()}
+                    shown = ([inv.get(x, "?") for x in got["imp"] or []], [inv.get(x, "?") for x in want["imp"]]) \
+                        if instr == "import" else (got["deps"], want["deps"])
+                    ck.violation(case, f"one process compiles {before} and then {unit_sources[u - 1]!r} with a {m} "
+                                       f"environment: the {instr} line(s) of the generated code are {shown[0]}, the "
+                                       f"specification (a process that compiled nothing before) has {shown[1]}",
+                                 {"kind": "history-dependent-code", "instr": instr})
+                key = (u, m)
+                if key not in ref:
+                    ref[key] = (code, b["session"], k, s)
+                elif ref[key][0] != code and not reported:
+                    reported = True
+                    a, c2 = ref[key][0].splitlines(), code.splitlines()
+                    j = next((i for i in range(min(len(a), len(c2))) if a[i] != c2[i]), min(len(a), len(c2)))
+                    ck.violation(dict(case, other={"session": ref[key][1], "step": ref[key][2], "seed": ref[key][3]}),
+                                 f"{unit_sources[u - 1]!r} ({m}) compiled after {before} differs at line {j + 1} from the same "
+                                 f"compilation in another process / at another position: "
+                                 f"{(c2[j].strip() if j < len(c2) else '<end>')!r} vs {(a[j].strip() if j < len(a) else '<end>')!r}",
+                                 {"kind": "history-dependent-code", "instr": "bytes"})
+    return n
+
+
+# ---------------------------------------------------------------------------
 # corpus for byte-identity only
 # ---------------------------------------------------------------------------
 def big_templates(rnd, names, n):
@@ -388,8 +573,17 @@ def run(ck):
     rnd = random.Random(ck.seed * 65537 + 30)
     seeds = [0, 1, 2, 3] if quick else [0, 1, 2, 3, 4, 5] + [rnd.randrange(6, 2 ** 32 - 1) for _ in range(2)]
     t0 = time.time()
+    # --- names whose set order varies with the seed; runtime.exported as a fresh process sees it
+    names, lists = choose_names(ck, seeds, rnd)
+    nm = Namer(names)
     # --- model checking
     maxst = 2 if quick else 3
+    # sequences of compilations in one process (CompileSession.tla), side by side with the runs below
+    # (a process per session is what costs: about 0.2 CPU-s each; quick 16 sessions, thorough 216)
+    maxlen = 2 if quick else 3
+    pool = ThreadPoolExecutor(1)
+    nunits = 2 if quick else 3
+    f_sess = pool.submit(run_session_tlc, "session", lists, maxlen, nunits)
     # one run: the switches as in the code (branch site sorted or not), and - for programs of <= 2
     # statements as well - every sorted site switched off in turn (negative controls: the model
     # reports the orders that change the output)
@@ -433,15 +627,27 @@ def run(ck):
                                              "pop_assign_tracking sorted(public_names)": True,
                                              "branch_update (unsorted in the code)": False,
                                              "ext.i18n parse: sorted(referenced) (added by repair 3239c13)": True}
+    rs = f_sess.result()
+    pool.shutdown()
+    ck.add_tlc(rs, f"CompileSession: every sequence of {maxlen} compilations over {nunits} units x sync / async, "
+                   f"switches as in the code + each one off")
+    sessions, sleaks = session_records(rs)
+    ck.extra["negative_controls_sessions_with_history_dependent_output"] = sleaks
+    if len(sessions) != (2 * nunits) ** maxlen:
+        raise core.MachineryError(f"CompileSession printed {len(sessions)} sessions")
+    for k, cnt in sleaks.items():
+        if cnt == 0:
+            raise core.MachineryError(f"negative control: switch {k} off never makes the output depend on the history")
     t1 = time.time()
-    # --- names and real compilations
-    names = choose_names(ck, seeds, rnd)
-    nm = Namer(names)
+    # --- real compilations
     sources = [unparse(p["prog"], nm) for p in progs]
     nbig = 150 if quick else 1500
     extra = big_templates(rnd, names, nbig) + repo_templates()
-    res = run_seeds(seeds, {"sources": sources + extra}, "compile")
+    unit_sources = [unparse(u["prog"], nm) for u in SESSION_UNITS[:nunits]]
+    res = run_compile_jobs(seeds, sessions, unit_sources, sources + extra, "compile")
     t2 = time.time()
+    nsess = check_sessions(ck, unit_sources, sessions, lists, res, seeds)
+    ck.extra["sessions"] = {"sessions": len(sessions), "compilations_compared": nsess}
     site_cov = {s: 0 for s in SITES}
     n = 0
     for idx, p in enumerate(progs):
@@ -479,8 +685,23 @@ def run(ck):
                          {"kind": "repeat-differs"})
         else:
             report_diff(ck, "corpus", src, codes, seeds)
-    ck.traces += n + nb
-    ck.evaluations += (n + nb) * len(seeds) * 2
+    # the same templates compiled by async environments in between: twice per process, every seed
+    na = 0
+    for idx, src in enumerate(sources + extra):
+        acodes = {s: res[s]["acodes"][idx] for s in seeds}
+        if acodes[seeds[0]].startswith("EXC ") and not res[seeds[0]]["codes"][idx].startswith("EXC "):
+            raise core.MachineryError(f"template compiles with a sync but not with an async environment: {src!r}: "
+                                      f"{acodes[seeds[0]]}")
+        na += 1
+        if not all(res[s]["aagain"][idx] for s in seeds):
+            ck.violation({"kind": "repeat", "mode": "async", "source": src},
+                         f"compiling {src[:100]!r} twice with async environments in one process gives different code",
+                         {"kind": "repeat-differs"})
+        else:
+            report_diff(ck, "async", src, acodes, seeds, {"mode": "async"})
+    ck.extra["async_compilations_compared"] = na
+    ck.traces += n + nb + len(sessions)
+    ck.evaluations += (n + nb) * len(seeds) * 4 + nsess
     ck.exhaustive = False
     ck.extra["seeds"] = seeds
     ck.extra["programs"] = n
@@ -493,7 +714,8 @@ def run(ck):
     ck.extra["phase_s"] = {"tlc": round(t1 - t0, 1), "compile": round(t2 - t1, 1), "compare": round(time.time() - t2, 1)}
     ck.extra["excluded_shapes"] = ["the model covers the top-level frame (no parent symbols: the alias branch of "
                                    "branch_update is exercised by the corpus only)",
-                                   "extensions (i18n, loopcontrols, do, debug) and async code generation"]
+                                   "extensions other than i18n's trans block (loopcontrols, do, debug); async code "
+                                   "generation is compared byte for byte only (no projection on the model)"]
     ck.assumptions += ["set iteration order of str depends only on PYTHONHASHSEED (CPython); verified for the chosen "
                        "names: every subset of size 2..4 iterates in at least two different orders over the seeds"]
 
@@ -505,10 +727,22 @@ def replay(ck, rec):
     seeds = c.get("seeds") or [0, 1, 2, 3]
     if len(seeds) < 4:
         seeds = sorted(set(seeds) | {0, 1, 2, 3})
+    if c["kind"] == "session":
+        lists = {k: v for k, v in run_seeds(seeds[:1], {"runtime_lists": True}, "replay")[seeds[0]].items()
+                 if k in ("exported", "async_exported")}
+        r = run_session_tlc("replay", lists, len(c["session"]), len(c["units"]))
+        ck.add_tlc(r, "CompileSession replay")
+        sessions = [b for b in session_records(r)[0] if b["session"] == c["session"]]
+        if not sessions:
+            raise core.MachineryError("replay: TLC did not produce the recorded session")
+        res = run_compile_jobs(seeds[:1], sessions, c["units"], [], "replay")
+        check_sessions(ck, c["units"], sessions, lists, res, seeds[:1])
+        return
     res = run_seeds(seeds, {"sources": [c["source"]]}, "replay")
-    codes = {s: res[s]["codes"][0] for s in seeds}
+    asy = c.get("mode") == "async"
+    codes = {s: res[s]["acodes" if asy else "codes"][0] for s in seeds}
     if c["kind"] == "repeat":
-        if not all(res[s]["again"][0] for s in seeds):
+        if not all(res[s]["aagain" if asy else "again"][0] for s in seeds):
             ck.violation(c, "still differs between two compilations", rec.get("fingerprint"))
         return
     if report_diff(ck, c["kind"], c["source"], codes, seeds):
